@@ -278,3 +278,46 @@ theorem submit_loop_terminates (n per burst : Nat) (hp : 1 ≤ per) (delay : Nat
     simp only [decide_eq_true_eq]; omega
 
 end Pyndl
+
+namespace Pyndl
+open List
+
+/-- **a failing conversion job makes the call raise, for every completion
+    order**: the first closing job `f0` is always submitted (everything that
+    could close the pool earlier is submitted after it), it completes, its
+    error is recorded, and the caller raises after the join — no later than
+    `tDone f0`. -/
+theorem convert_raises (n per burst : Nat) (delay : Nat → Nat) (failing : Nat → Bool) (f0 : Nat)
+    (hfirst : ∀ j, j < f0 → closesF n per failing j = false) (hfail : failing f0 = true) :
+    let H := tDone delay burst f0
+    let r := simulateF n per burst delay failing f0 H
+    r.1 ≤ H ∧ r.2.1 = true := by
+  intro H r
+  have hlo : tSubmit delay burst f0 ≤ r.1 := by
+    show tSubmit delay burst f0 ≤ List.foldl _ _ _
+    apply le_foldl_min
+    · unfold tDone; omega
+    · intro j hj
+      simp only [List.mem_filter, List.mem_range] at hj
+      have hge : f0 ≤ j := by
+        by_contra hlt
+        have := hfirst j (by omega)
+        rw [this] at hj; exact absurd hj.2 (by simp)
+      have := tSubmit_mono delay burst hge
+      unfold tDone; omega
+  refine ⟨foldl_min_le_init _ _ _, ?_⟩
+  show List.any _ failing = true
+  rw [List.any_eq_true]
+  refine ⟨f0, ?_, hfail⟩
+  simp only [List.mem_filter, List.mem_range, decide_eq_true_eq]
+  have h1 := le_tSubmit delay burst f0
+  refine ⟨?_, hlo⟩
+  show f0 < tDone delay burst f0 + 1
+  unfold tDone; omega
+
+/-- without a failing job nothing is raised -/
+theorem convert_no_fault (n per burst : Nat) (delay : Nat → Nat) (f0 H : Nat) :
+    (simulateF n per burst delay (fun _ => false) f0 H).2.1 = false := by
+  simp [simulateF]
+
+end Pyndl
